@@ -169,7 +169,17 @@ Definition known_peer (npeer : nat) (l : list src) : option Z :=
 
 Definition two62f : f64 := f_of_int (2^62).
 
-Definition round_ok (cfg : config) (refMax peerMax : f64) (nref npeer : nat)
+(* Rounds in which a source failed, answered late or not at all: the code aggregates over values of earlier rounds
+   as well, so the exact value of the correction is the model's business.  What the property still demands there,
+   besides the bound: "a peer offset within the cutoff contributes nothing".  The aggregated peer offset is a
+   fault-tolerant midpoint of values that peers (and the local clock, offset 0) have reported in this or an earlier
+   round; if EVERY peer answer counted so far is within the cutoff (and below 2^62 ns, where midpoints are exact), so
+   is the aggregated offset, whatever mixture of old and new values it is taken over: the peers then contribute
+   nothing - the correction is 0 without reference clocks and within the REFERENCE cap with them.  pe = "every peer
+   answer counted so far, and 0, is within the cutoff". *)
+Definition peer_small (cfg : config) (v : Z) : bool := (Z.abs v <=? c_cutoff cfg) && (Z.abs v <? 2^62).
+
+Definition round_ok (cfg : config) (refMax peerMax : f64) (nref npeer : nat) (pe : bool)
            (kr kp : option Z) (c : Z) : bool :=
   let small := flt refMax two62f && flt peerMax two62f in     (* both caps below 2^62 ns: Midpoint cannot wrap *)
   match nref, npeer with
@@ -177,7 +187,7 @@ Definition round_ok (cfg : config) (refMax peerMax : f64) (nref npeer : nat)
   | S _, O =>
       within c refMax && match kr with Some ro => c =? bounded refMax ro | None => true end
   | O, S _ =>
-      ((c =? 0) || within c peerMax) &&
+      ((c =? 0) || within c peerMax) && (if pe then c =? 0 else true) &&
       match kp with
       | Some po => if Z.abs po <=? c_cutoff cfg then c =? 0 else c =? bounded peerMax po
       | None => true
@@ -190,6 +200,7 @@ Definition round_ok (cfg : config) (refMax peerMax : f64) (nref npeer : nat)
                 | _, _ => false
                 end in
       (if small || nw then within c refMax || within c peerMax else true) &&
+      (if pe then within c refMax else true) &&
       match kr, kp with
       | Some ro, Some po =>
           if Z.abs po <=? c_cutoff cfg then c =? bounded refMax ro
@@ -200,14 +211,15 @@ Definition round_ok (cfg : config) (refMax peerMax : f64) (nref npeer : nat)
   end.
 
 (* Do c ; Sleep interval, once per round *)
-Fixpoint rounds_ok (cfg : config) (refMax peerMax : f64) (nref npeer : nat)
+Fixpoint rounds_ok (cfg : config) (refMax peerMax : f64) (nref npeer : nat) (pe : bool)
          (rs : list rnd) (evs : list event) : bool :=
   match rs, evs with
   | [], [] => true
   | r :: rest, EDo c :: ESleep d :: evs' =>
+      let pe' := pe && forallb (peer_small cfg) (timely (r_peer r)) in
       (d =? c_interval cfg)
-      && round_ok cfg refMax peerMax nref npeer (known_ref nref (r_ref r)) (known_peer npeer (r_peer r)) c
-      && rounds_ok cfg refMax peerMax nref npeer rest evs'
+      && round_ok cfg refMax peerMax nref npeer pe' (known_ref nref (r_ref r)) (known_peer npeer (r_peer r)) c
+      && rounds_ok cfg refMax peerMax nref npeer pe' rest evs'
   | _, _ => false
   end.
 
@@ -221,7 +233,9 @@ Fixpoint drift_calls (evs : list event) : list (Z * Z) * list event :=
   | _ => ([], evs)
   end.
 
-Definition C01_ok (cfg : config) (nref npeer : nat) (rs : list rnd) (obs : bool * list event) : bool :=
+(* env: the history rs says exactly which answers were counted in each round (false for scenarios in which that is
+   left open - SyncTimeout = 0 - where the clause about peers within the cutoff cannot be evaluated) *)
+Definition C01_ok_env (env : bool) (cfg : config) (nref npeer : nat) (rs : list rnd) (obs : bool * list event) : bool :=
   let '(pan, evs) := obs in
   if inadmissible cfg then pan && no_do evs                 (* refused at start-up (NaN factors included), nothing handed on *)
   else
@@ -231,9 +245,11 @@ Definition C01_ok (cfg : config) (nref npeer : nat) (rs : list rnd) (obs : bool 
       match ds with
       | [] => pan && no_do evs'
       | (_, D1) :: _ =>
-          negb pan && rounds_ok cfg (cap (c_ref cfg) D1) (cap (c_peer cfg) (snd (last ds (0, D1)))) nref npeer rs evs'
+          negb pan && rounds_ok cfg (cap (c_ref cfg) D1) (cap (c_peer cfg) (snd (last ds (0, D1)))) nref npeer (env && peer_small cfg 0) rs evs'
       end
     else pan && no_do evs'.      (* the clock does not report a positive drift: refused as well *)
+
+Definition C01_ok : config -> nat -> nat -> list rnd -> bool * list event -> bool := C01_ok_env true.
 
 (* clk.Drift for the real SystemClock: configured drift x interval, up to the
    rounding of the float64 computation (6 roundings, one truncation) *)
